@@ -12,6 +12,9 @@
 //!   txbig <n> <base> <len>      one request inserting rows base..base+n-1 into `t` (a = <len> bytes 'a', b = index)
 //!   conc <k> <tx>|<tx>|…        k requests issued concurrently (generated row-disjoint, so every serialisation
 //!                               yields the same set of results); compared as a set, versions as a block
+//!   rv <peer> <stmts>           peer 1..3 (a plain cr-sqlite database, site id = peer) commits a transaction; its complete
+//!                               changeset is delivered to the agent through the REAL `process_multiple_changes` (one call).
+//!                               Peer version numbers collide with the node's own: versions are per actor
 //!   state                       own need/head from `generate_sync`, `crsql_db_version()`, announced versions,
 //!                               number of stray broadcast messages, store dump
 //!
@@ -31,7 +34,7 @@
 //! own head = current version; no message for anything that was not acknowledged.
 use std::collections::{BTreeMap, BTreeSet};
 use std::path::PathBuf;
-use std::time::Duration;
+use std::time::{Duration, Instant};
 
 use axum::Extension;
 use klukai_agent::agent::{AgentOptions, setup};
@@ -39,7 +42,10 @@ use klukai_agent::api::public::{TimeoutParams, api_v1_db_schema, api_v1_transact
 use klukai_types::actor::ActorId;
 use klukai_types::agent::{Agent, Bookie};
 use klukai_types::api::{ExecResult, SqliteParam, Statement};
-use klukai_types::broadcast::{BroadcastInput, BroadcastV1, ChangeV1, Changeset};
+use klukai_agent::agent::util::process_multiple_changes;
+use klukai_types::base::{CrsqlDbVersion, CrsqlSeq};
+use klukai_types::broadcast::{BroadcastInput, BroadcastV1, ChangeSource, ChangeV1, Changeset, Timestamp};
+use klukai_types::change::row_to_change;
 use klukai_types::change::{Change, MAX_CHANGES_BYTE_SIZE};
 use klukai_types::config::Config;
 use klukai_types::sqlite::CrConn;
@@ -92,6 +98,8 @@ struct World {
     tags: Vec<String>,
     broken: bool,
     nontrivial: bool,
+    /// plain cr-sqlite databases of other actors (site id = index)
+    peers: BTreeMap<usize, CrConn>,
 }
 
 struct Snap {
@@ -266,6 +274,7 @@ impl World {
             tags: vec![],
             broken: false,
             nontrivial: false,
+            peers: BTreeMap::new(),
         })
     }
 
@@ -644,6 +653,77 @@ impl World {
         ))
     }
 
+    /// a peer commits a transaction; its complete changeset goes through the real ingest path
+    async fn op_rv(&mut self, peer: usize, stmts: &str) -> Result<String, String> {
+        let parsed: Option<Vec<(String, Vec<rusqlite::types::Value>)>> = stmts.split(';').map(stmt_sql).collect();
+        let Some(parsed) = parsed else { return Ok("bad-op".into()) };
+        self.sweep();
+        let before = self.snap().await?;
+        if !self.peers.contains_key(&peer) {
+            let c = open_plain_db(self._dir.path(), peer).map_err(|e| format!("peer db: {e}"))?;
+            self.peers.insert(peer, c);
+        }
+        let conn = self.peers.get_mut(&peer).unwrap();
+        let v0: i64 = conn.query_row("SELECT crsql_db_version()", [], |r| r.get(0)).map_err(|e| e.to_string())?;
+        let res: rusqlite::Result<()> = (|| {
+            let tx = conn.transaction()?;
+            for (sql, ps) in &parsed {
+                tx.execute(sql, rusqlite::params_from_iter(ps.iter()))?;
+            }
+            tx.commit()
+        })();
+        match res {
+            Err(e) if e.sqlite_error_code() == Some(rusqlite::ErrorCode::ConstraintViolation) => return Ok("err constraint".into()),
+            Err(e) => return Err(format!("peer write: {e}")),
+            Ok(()) => {}
+        }
+        let v1: i64 = conn.query_row("SELECT crsql_db_version()", [], |r| r.get(0)).map_err(|e| e.to_string())?;
+        if v1 == v0 {
+            return Ok("noop".into());
+        }
+        let site = site_id(peer).to_vec();
+        let changes: Vec<Change> = conn
+            .prepare(r#"SELECT "table", pk, cid, val, col_version, db_version, seq, site_id, cl FROM crsql_changes WHERE db_version = ? AND site_id = ? ORDER BY seq ASC"#)
+            .and_then(|mut st| st.query_map(rusqlite::params![v1, site], row_to_change)?.collect::<rusqlite::Result<Vec<_>>>())
+            .map_err(|e| format!("peer changes: {e}"))?;
+        let last_seq = changes.iter().map(|c| c.seq).max().unwrap_or(CrsqlSeq(0));
+        let shown: Vec<String> = changes.iter().map(|c| show_change(c, false)).collect();
+        let n = changes.len();
+        let batch = vec![(
+            ChangeV1 {
+                actor_id: ActorId::from_bytes(site_id(peer)),
+                changeset: Changeset::Full {
+                    version: CrsqlDbVersion(v1 as u64),
+                    changes,
+                    seqs: CrsqlSeq(0)..=last_seq,
+                    last_seq,
+                    ts: Timestamp::from(self.agent.clock().new_timestamp()),
+                },
+            },
+            ChangeSource::Broadcast,
+            Instant::now(),
+        )];
+        process_multiple_changes(self.agent.clone(), self.bookie.clone(), batch, Duration::from_secs(60))
+            .await
+            .map_err(|e| format!("process_multiple_changes: {e}"))?;
+        let after = self.snap().await?;
+        // a remote version is not the node's own: own counter, own head and own need stay, nothing is announced
+        if after.dbv != before.dbv {
+            self.fail(format!("ingesting a remote version moved the node's own crsql_db_version {} -> {}", before.dbv, after.dbv));
+        }
+        if after.head != before.head || after.need != before.need {
+            self.fail(format!("ingesting a remote version changed the own bookkeeping: head {} -> {}", before.head, after.head));
+        }
+        self.check_book(&after, "after a remote version was ingested");
+        self.sweep();
+        self.tags.push(format!("remote:{}", if v1 as i64 > after.dbv { "ahead" } else if v1 as i64 == after.dbv { "level" } else { "behind" }));
+        if v1 == after.dbv + 1 {
+            self.tags.push("remote:collides-with-next-own".into());
+            self.nontrivial = true;
+        }
+        Ok(format!("ok p={peer} v={v1} n={n} last={} dbv={} ch={}", last_seq.0, after.dbv, clip(show_list(&shown, ";"))))
+    }
+
     async fn exec(&mut self, toks: &[&str]) -> Result<String, String> {
         match toks {
             ["cfg", l] => {
@@ -694,6 +774,13 @@ impl World {
                     _ => Ok("bad-op".into()),
                 }
             }
+            ["rv", peer, stmts] => {
+                let Ok(peer) = peer.parse::<usize>() else { return Ok("bad-op".into()) };
+                if !(1..=3).contains(&peer) {
+                    return Ok("bad-op".into());
+                }
+                self.op_rv(peer, stmts).await
+            }
             ["state"] => self.op_state().await,
             _ => Ok("bad-op".into()),
         }
@@ -719,6 +806,25 @@ fn gen_noop(rng: &mut Rng) -> String {
         1 => format!("del:k:i{}", 50 + rng.range(0, 5)),
         _ => format!("del:u:i{}+t7a", 50 + rng.range(0, 5)),
     }
+}
+
+/// a transaction of a remote actor: mostly several cell changes (more than the node's next own write has)
+fn gen_rv(rng: &mut Rng) -> String {
+    let peer = rng.range(1, 3);
+    let st: Vec<String> = match rng.below(4) {
+        0 => (0..rng.range(1, 2)).map(|_| gen_stmt(rng)).collect(),
+        _ => (0..rng.range(2, 4))
+            .map(|_| {
+                let key = 300 + 10 * peer + rng.range(0, 6);
+                match rng.below(5) {
+                    0 => format!("upd:t:i{key}:a=t{:02x},b=i{}", rng.range(0x61, 0x63), rng.range(0, 2)),
+                    1 => format!("del:t:i{key}"),
+                    _ => format!("ins:t:i{key}:a=t{:02x},b=i{}", rng.range(0x61, 0x63), rng.range(0, 2)),
+                }
+            })
+            .collect(),
+    };
+    format!("rv {peer} {}", st.join(";"))
 }
 
 /// a row-disjoint request for slot `slot` of a concurrent op (keys 100*(slot+1)+j)
@@ -762,7 +868,7 @@ impl Prop for C07 {
         // every failure kind at the first / middle / last position of a request that also does real work
         let kinds = ["bad", "badparam", "missing", "ins:t:i1", "slow"];
         let n = kinds.len() * 3;
-        if index >= n + 3 {
+        if index >= n + 4 {
             return None;
         }
         let cfg = format!("cfg {MAX_CHANGES_BYTE_SIZE}");
@@ -782,6 +888,26 @@ impl Prop for C07 {
         if index == n + 1 {
             // a transaction of several chunks whose last statement fails, then the same rows for real
             return Some(vec![cfg, "tx ins:t:i1299:a=t61".into(), "txbig 300 1000 40".into(), "state".into(), "txbig 299 1000 40".into(), marker(0), "state".into()]);
+        }
+        if index == n + 3 {
+            // remote versions level with the node's own counter, each with more changes than the node's next write;
+            // no-op, failing and real local requests in between
+            return Some(vec![
+                cfg,
+                "rv 1 ins:t:i1:a=t61,b=i1;ins:t:i2:a=t62,b=i2".into(),
+                "tx upd:t:i9:a=t61".into(),
+                "tx del:k:i9".into(),
+                "tx ins:k:i5;bad".into(),
+                "state".into(),
+                "tx ins:k:i5".into(),
+                "rv 2 ins:t:i3:a=t63,b=i3;ins:u:i1+t61:x=t62;ins:k:i6".into(),
+                "rv 1 upd:t:i1:a=t62,b=i2;del:t:i2".into(),
+                "tx del:t:i7".into(),
+                "tx upd:t:i3:b=i4".into(),
+                "tx upd:t:i3:b=i4".into(),
+                marker(0),
+                "state".into(),
+            ]);
         }
         if index == n + 2 {
             // 1500 statements / 2998 changes rolled back because the LAST statement violates the primary key, then
@@ -807,7 +933,16 @@ impl Prop for C07 {
         let nreq = rng.range(8, 16);
         let mut markers = 0u64;
         let mut big_base = 1000u64;
+        // one case in three keeps remote actors level with / ahead of the node's own version counter
+        let remote_heavy = rng.chance(1, 3);
         for _ in 0..nreq {
+            if rng.chance(if remote_heavy { 3 } else { 1 }, if remote_heavy { 5 } else { 12 }) {
+                ops.push(gen_rv(rng));
+                if remote_heavy && rng.chance(1, 2) {
+                    // a local request that changes nothing right behind it
+                    ops.push(format!("tx {}", gen_noop(rng)));
+                }
+            }
             match rng.below(100) {
                 0..=39 => {
                     let k = if rng.chance(1, 2) { 1 } else { rng.range(2, 4) };
